@@ -22,6 +22,7 @@ type Fact struct {
 type State struct {
 	Steps  []ast.Node // block-level nodes executed so far, in order
 	Facts  []Fact     // live facts, oldest first
+	Taken  []Fact     // every branch condition assumed on this path, including those killed by later assignments
 	Defers []*ast.DeferStmt
 	visits []int8
 }
@@ -30,9 +31,21 @@ func (s *State) clone() *State {
 	c := &State{}
 	c.Steps = append(make([]ast.Node, 0, len(s.Steps)+8), s.Steps...)
 	c.Facts = append(make([]Fact, 0, len(s.Facts)+4), s.Facts...)
+	c.Taken = append(make([]Fact, 0, len(s.Taken)+4), s.Taken...)
 	c.Defers = append([]*ast.DeferStmt(nil), s.Defers...)
 	c.visits = append([]int8(nil), s.visits...)
 	return c
+}
+
+// TookBranch reports whether the path went through a branch whose condition satisfies pred,
+// whether or not the variables of the condition were assigned afterwards.
+func (s *State) TookBranch(pred func(e ast.Expr, pol bool) bool) bool {
+	for _, f := range s.Taken {
+		if pred(f.Expr, f.Pol) {
+			return true
+		}
+	}
+	return false
 }
 
 // HasFact reports whether some live fact satisfies pred.
@@ -260,6 +273,7 @@ func (w *Walker) expand(st *State, e ast.Expr, pol bool) []*State {
 		}
 	}
 	if w.assume(st, e, pol) {
+		st.Taken = append(st.Taken, Fact{Expr: e, Pol: pol})
 		return []*State{st}
 	}
 	return nil
